@@ -281,6 +281,7 @@ func (c *ctx) tail(ops []string, vsChain string) []string {
 func (P) Generate(g *hx.Gen) {
 	maxN := g.Pick(8, 12)
 	dupevCases(g)
+	wideCases(g)
 
 	// ---- corpus: 4 equal validators, three precommits for B make the commit, two do not
 	{
